@@ -849,6 +849,10 @@ def val_getitem(it, v, idx, node):
         r.column_of = v
         return r
     if getattr(idx, "scalar_pos", False) or getattr(idx, "is_scalar_index", False):
+        fr_ = getattr(v, "of_frame", None)
+        if getattr(v, "series", False) and fr_ is not None and not getattr(idx, "is_label", False) and not fr_.labels_positional:
+            # <column>[i] with a running position i: pandas looks i up among the row LABELS of the column
+            it.record("typing", "series-by-position", [v, idx], {}, node)
         r = Val(call("elem", v.term, to_term(idx)))
         r.elem_of = v
         r.elem_index = idx
